@@ -35,6 +35,7 @@ func isMathInt(t types.Type) bool { return t == types.Type(mathIntType) }
 
 // Ctx accumulates an SMT script for one function (or lemma).
 type Ctx struct {
+	rng      map[string]termRange // static ranges of int-mode terms (see rangedOp)
 	mode     Mode
 	decls    []string // declarations that may appear in any order (consts, sorts)
 	sortDecl []string // datatype declarations for struct sorts (must precede decls)
@@ -335,6 +336,78 @@ func (c *Ctx) wrap1(t types.Type, e string) string {
 	return fmt.Sprintf("(let ((r!w %s)) (ite (> r!w %s) (- r!w %s) (ite (< r!w %s) (+ r!w %s) r!w)))", e, intLitS(hi), m, intLitS(lo), m)
 }
 
+// Static ranges of int-mode terms (keyed by the term text): literals, slice header components, values widened
+// from a narrower integer type, and sums / differences / products of such terms. They rest on well-typedness
+// only (a uint8 value is in 0..255). An operation whose mathematical result provably stays inside its type is
+// encoded without the wrap-around term.
+type termRange struct{ lo, hi *big.Int }
+
+func (c *Ctx) noteRange(x string, lo, hi *big.Int) {
+	if c.rng == nil {
+		c.rng = map[string]termRange{}
+	}
+	if old, ok := c.rng[x]; ok {
+		// keep the tighter bounds
+		if old.lo.Cmp(lo) > 0 {
+			lo = old.lo
+		}
+		if old.hi.Cmp(hi) < 0 {
+			hi = old.hi
+		}
+	}
+	c.rng[x] = termRange{lo, hi}
+}
+
+func (c *Ctx) rangeOf(x string) (termRange, bool) {
+	if v, ok := constOf(x); ok {
+		return termRange{v, v}, true
+	}
+	if strings.HasPrefix(x, "(slen ") || strings.HasPrefix(x, "(scap ") || strings.HasPrefix(x, "(soff ") {
+		return termRange{big.NewInt(0), pow2(40)}, true
+	}
+	r, ok := c.rng[x]
+	return r, ok
+}
+
+func (c *Ctx) rangedOp(op string, t types.Type, x, y string) (string, bool) {
+	if isMathInt(t) {
+		return "", false
+	}
+	rx, ok1 := c.rangeOf(x)
+	ry, ok2 := c.rangeOf(y)
+	if !ok1 || !ok2 {
+		return "", false
+	}
+	var lo, hi *big.Int
+	switch op {
+	case "+":
+		lo, hi = new(big.Int).Add(rx.lo, ry.lo), new(big.Int).Add(rx.hi, ry.hi)
+	case "-":
+		lo, hi = new(big.Int).Sub(rx.lo, ry.hi), new(big.Int).Sub(rx.hi, ry.lo)
+	case "*":
+		ps := []*big.Int{new(big.Int).Mul(rx.lo, ry.lo), new(big.Int).Mul(rx.lo, ry.hi), new(big.Int).Mul(rx.hi, ry.lo), new(big.Int).Mul(rx.hi, ry.hi)}
+		lo, hi = ps[0], ps[0]
+		for _, p := range ps[1:] {
+			if p.Cmp(lo) < 0 {
+				lo = p
+			}
+			if p.Cmp(hi) > 0 {
+				hi = p
+			}
+		}
+	default:
+		return "", false
+	}
+	w, s, _ := intInfo(t)
+	tl, th := minMax(w, s)
+	if lo.Cmp(tl) < 0 || hi.Cmp(th) > 0 {
+		return "", false
+	}
+	r := fmt.Sprintf("(%s %s %s)", op, x, y)
+	c.noteRange(r, lo, hi)
+	return r, true
+}
+
 func (c *Ctx) wrapm(t types.Type, e string) string {
 	if isMathInt(t) {
 		return e
@@ -452,8 +525,14 @@ func (c *Ctx) binop(op string, t types.Type, x, y string, ty types.Type) string 
 		if w, _, _ := intInfo(t); w == 64 && smallTerm(x) && smallTerm(y) {
 			return fmt.Sprintf("(%s %s %s)", op, x, y)
 		}
+		if r, ok := c.rangedOp(op, t, x, y); ok {
+			return r
+		}
 		return c.wrap1(t, fmt.Sprintf("(%s %s %s)", op, x, y))
 	case "*":
+		if r, ok := c.rangedOp(op, t, x, y); ok {
+			return r
+		}
 		return c.wrapm(t, fmt.Sprintf("(* %s %s)", x, y))
 	case "/":
 		if yconst && cy.Sign() > 0 {
@@ -579,6 +658,11 @@ func (c *Ctx) convert(from, to types.Type, x string) string {
 	lf, hf := minMax(wf, sf)
 	lt, ht := minMax(wt, st)
 	if lf.Cmp(lt) >= 0 && hf.Cmp(ht) <= 0 {
+		// widening: the value keeps the range of its (narrower) source type - remembered so that arithmetic on it
+		// that cannot leave the wider type needs no wrap-around term
+		if wf < wt {
+			c.noteRange(x, lf, hf)
+		}
 		return x
 	}
 	return c.wrapm(to, x)
